@@ -264,6 +264,8 @@ func run(id, tier string) int {
 	knownSeen := map[int]bool{}
 	const maxReported = 8
 	suppressed := 0
+	var nondet []string
+keyLoop:
 	for _, k := range keys {
 		v := byKey[k]
 		if len(unknown) >= maxReported {
@@ -295,6 +297,9 @@ func run(id, tier string) int {
 				if ee, ok := rerr.(*exec.ExitError); ok && ee.ExitCode() != 1 && ee.ExitCode() != 2 {
 					crashed = true // the replay process itself died: the crash reproduces
 				}
+				if rerr != nil && (strings.Contains(string(out), "fatal error:") || strings.Contains(string(out), "\npanic:")) && !strings.Contains(string(out), "HARNESS-ERROR") {
+					crashed = true // Go runtime fatal errors (out of memory, …) exit with status 2
+				}
 				if ck.ReplayLoose {
 					// race reports are hard evidence on their own (the detector has no false positives) but it does
 					// not promise to report a given race in every run (shadow-cell eviction): replays are informative only
@@ -304,8 +309,12 @@ func run(id, tier string) int {
 					continue
 				}
 				if !strings.Contains(string(out), "REPLAY-VIOLATION key="+k+" ") && !(k == "crash" && crashed) {
+					// not believed: a failure that does not reproduce is a problem of the machinery (or of a
+					// wall-clock guard under load), never a finding; other keys are still judged
 					fmt.Printf("HARNESS-NONDETERMINISM property=%s key=%s replay %d did not reproduce:\n%s\n", id, k, r, tailStr(string(out), 1500))
-					return 3
+					nondet = append(nondet, k)
+					os.Remove(file)
+					continue keyLoop
 				}
 			}
 		}
@@ -359,6 +368,7 @@ func run(id, tier string) int {
 		"shards":                  m.Shards,
 		"known_findings_observed": known,
 		"violation_keys":          unknown,
+		"not_reproduced_keys":     nondet,
 	}
 	if ck.Level == "model_checking" {
 		cov["states"] = m.States
@@ -391,6 +401,9 @@ func run(id, tier string) int {
 		id, tier, m.Evaluations, m.Nontrivial, len(m.Outcomes), m.Exhaustive, m.Caps, len(known), len(unknown), time.Since(t0).Seconds())
 	if len(unknown) > 0 {
 		return 1
+	}
+	if len(nondet) > 0 {
+		return 3
 	}
 	return 0
 }
